@@ -1,6 +1,7 @@
 package samlsim
 
 import (
+	"crypto/rsa"
 	"encoding/base64"
 	"encoding/xml"
 	"fmt"
@@ -67,7 +68,7 @@ type c07Session struct {
 }
 
 type c07Knobs struct {
-	SPKey      string `json:"sp_key"`              // rsa1..rsa4 | rsasig | rsaski | ec0 | ec1 | none (no certificate: nothing to encrypt to)
+	SPKey      string `json:"sp_key"`              // rsa1..rsa4 | rsasig | rsaski | rsa4096 | rsa1024 | ec0 | ec1 | none (no certificate: nothing to encrypt to)
 	EntityID   string `json:"sp_entity_id"`        // "" = unset (metadata URL is the entity ID)
 	Binding    string `json:"request_binding"`     // redirect | post
 	SPSig      string `json:"sp_signature_method"` // "" = unsigned requests
@@ -240,7 +241,8 @@ func c07GenSession(g *Rng, i int, tier string, crRate float64) c07Session {
 		} else {
 			a.Friendly = c07Str{Class: "empty"}
 		}
-		nv := 1 + g.PickW(5, 3, 1)
+		// 1-3 values, or none at all (an attribute the user has, currently without a value: its name is still part of the identity)
+		nv := g.PickW(2, 5, 3, 1)
 		for q := 0; q < nv; q++ {
 			a.Values = append(a.Values, gs(fmt.Sprintf("av%d_%d_", j, q)))
 		}
@@ -256,7 +258,9 @@ func genRoundtrip(g *Rng, tier string) *Plan {
 	k := c07DefaultKnobs()
 	switch g.PickW(66, 28, 6) {
 	case 0:
-		k.SPKey = Pick(g, "rsa1", "rsa2", "rsa3", "rsa4", "rsasig", "rsaski", "rsa4096", "rsa4096") // rsasig: keyUsage digitalSignature only; the SP publishes it for encryption all the same
+		// rsasig: keyUsage digitalSignature only; the SP publishes it for encryption all the same. Key lengths: 2048 bits
+		// mostly, 4096, and 1024 (the shortest crypto/rsa works with, so the least room for whatever the IdP wraps for the SP)
+		k.SPKey = Pick(g, "rsa1", "rsa2", "rsa3", "rsa4", "rsasig", "rsaski", "rsa4096", "rsa4096", "rsa1024", "rsa1024")
 	case 1:
 		k.SPKey = "none"
 	case 2:
@@ -311,7 +315,7 @@ func genRoundtrip(g *Rng, tier string) *Plan {
 	}
 	for i := 0; i < n; i++ {
 		if rereg && i == 1 {
-			nk := Pick(g, "rsa1", "rsa2", "rsa3", "rsa4", "none", "ec0")
+			nk := Pick(g, "rsa1", "rsa2", "rsa3", "rsa4", "none", "ec0", "rsa1024")
 			if nk == k.SPKey {
 				nk = "rsa4"
 				if k.SPKey == "rsa4" {
@@ -330,7 +334,7 @@ func genRoundtrip(g *Rng, tier string) *Plan {
 // ---------------------------------------------------------------- world
 
 func c07Key(name string) (KeyPair, bool) {
-	for _, k := range []KeyPair{rsaSig, rsaSKI, rsa4096} {
+	for _, k := range []KeyPair{rsaSig, rsaSKI, rsa4096, rsa1024} {
 		if k.Name == name {
 			return k, true
 		}
@@ -906,6 +910,9 @@ func (s c07Session) classes() []string {
 		for j, v := range a.Values {
 			add(fmt.Sprintf("custom%d.value%d", i, j), v)
 		}
+		if len(a.Values) == 0 {
+			out = append(out, fmt.Sprintf("custom%d.values:none", i))
+		}
 	}
 	return out
 }
@@ -1076,6 +1083,17 @@ func execRoundtrip(t *testing.T, p *Plan) *Result {
 		}
 		if hasCR {
 			res.probe("carriage-return/" + out.Wire)
+		}
+		for _, a := range st.Session.Custom {
+			if len(a.Values) == 0 {
+				res.probe("custom-attribute-without-values/" + observed)
+				break
+			}
+		}
+		if kp, ok := c07Key(k.SPKey); ok {
+			if pub, isRSA := kp.Cert.PublicKey.(*rsa.PublicKey); isRSA && pub.N.BitLen() != 2048 {
+				res.probe(fmt.Sprintf("sp-rsa-key-%d-bit/idp-sig=%s/wire=%s", pub.N.BitLen(), c07Short(k.IdPSig), out.Wire))
+			}
 		}
 
 		if out.Panic {
@@ -1304,7 +1322,7 @@ func simplifyRoundtrip(p *Plan) []*Plan {
 func init() {
 	register(&Profile{
 		ID: "C07", Name: "roundtrip", Level: "exploration",
-		Rule: "each run: one world (real library IdP + real library SP, each configured only from the other's published metadata passed as bytes: IdP metadata through ServeMetadata/xml.Marshal → samlsp.ParseMetadata, SP metadata through Middleware.ServeMetadata/xml.Marshal → xml.Unmarshal → IdP registry) with drawn knobs {SP key RSA×4/ECDSA×2/none, entity ID unset/URL/URN/URN with markup, request binding redirect/POST, requests unsigned or signed with any RSA/ECDSA method, IdP key RSA×2 or ECDSA via crypto.Signer, Key vs Signer, IdP signature method default/RSA-SHA1/256/384/512 (ECDSA-SHA1..512 for the ECDSA signer), IdP entry PostBinding vs ServeSSO+HTML5 form parse, SP entry ParseXMLResponse vs ParseResponse, metadata compact vs indented}, then 1-3 fault-free flows, each for a session whose ~12-25 strings (NameID, Index, UserName, UserEmail, UserCommonName, UserSurname, UserGivenName, UserScopedAffiliation, EduPersonPrincipalName, SubjectID, 0-3 groups, 0-2 custom attributes with name, friendly name and 1-3 values) are drawn from 17 XML-hostile classes × 6 placements (whole/prefix/suffix/infix/both ends/repeated), random mixes of valid XML 1.0 characters, empty and 1k-200k character strings. Non-trivial = the run contains at least one non-plain string class or one non-default knob; distinct = distinct abstract log (knobs, per-field class list, wire form, outcome, comparison result)",
+		Rule: "each run: one world (real library IdP + real library SP, each configured only from the other's published metadata passed as bytes: IdP metadata through ServeMetadata/xml.Marshal → samlsp.ParseMetadata, SP metadata through Middleware.ServeMetadata/xml.Marshal → xml.Unmarshal → IdP registry) with drawn knobs {SP key RSA 2048-bit×6 (one with keyUsage digitalSignature only, one with a SubjectKeyIdentifier), RSA 4096-bit, RSA 1024-bit/ECDSA×2/none, entity ID unset/URL/URN/URN with markup, request binding redirect/POST, requests unsigned or signed with any RSA/ECDSA method, IdP key RSA×2 or ECDSA via crypto.Signer, Key vs Signer, IdP signature method default/RSA-SHA1/256/384/512 (ECDSA-SHA1..512 for the ECDSA signer), IdP entry PostBinding vs ServeSSO+HTML5 form parse, SP entry ParseXMLResponse vs ParseResponse, metadata compact vs indented}, then 1-3 fault-free flows, each for a session whose ~12-25 strings (NameID, Index, UserName, UserEmail, UserCommonName, UserSurname, UserGivenName, UserScopedAffiliation, EduPersonPrincipalName, SubjectID, 0-3 groups, 0-2 custom attributes with name, friendly name and 0-3 values (an attribute without any value is part of the identity by its name)) are drawn from 17 XML-hostile classes × 6 placements (whole/prefix/suffix/infix/both ends/repeated), random mixes of valid XML 1.0 characters, empty and 1k-200k character strings. Non-trivial = the run contains at least one non-plain string class or one non-default knob; distinct = distinct abstract log (knobs, per-field class list, wire form, outcome, comparison result)",
 		Gen:  genRoundtrip, Exec: execRoundtrip, Simplify: simplifyRoundtrip,
 		RunsQuick: 3000, RunsThorough: 300000,
 		Assumptions: []string{
